@@ -99,46 +99,81 @@ pub fn differential(ctx: &Ctx, rep: &mut Report) {
 /// logic of an implementation, which typical inputs never do. Returns the inputs ordered by
 /// decreasing number of chunks the reference consumes for 512 coefficients.
 pub fn extreme_inputs(seed: u64, candidates: usize, keep: usize) -> Vec<(usize, Vec<u8>)> {
+    use crate::refs::keccak::Shake256;
     use std::sync::Mutex;
     let best: Mutex<Vec<(usize, Vec<u8>)>> = Mutex::new(vec![]);
     par_for(64, ncpu(), |w, _| {
         let mut local: Vec<(usize, Vec<u8>)> = vec![];
+        let mut buf = [0u8; 2 * 612];
         for i in 0..candidates / 64 {
             // 40-byte "salt" with a counter, then a short message: the shape verify hashes
             let mut s = vec![0u8; 40];
             s[..8].copy_from_slice(&((seed << 40) ^ ((w as u64) << 32) ^ i as u64).to_le_bytes());
             s[8] = 0x5e;
             s.extend_from_slice(b"vf");
-            let (_, tr) = spec::hash_to_point_traced(&s, 512);
-            if tr.chunks >= 512 + 58 {
-                local.push((tr.chunks, s));
+            // raw chunk stream (9 SHAKE blocks = 612 chunks): rejections among the first 576 chunks
+            // and the longest run of consecutive rejected chunks
+            let mut x = Shake256::new(&s);
+            x.read(&mut buf);
+            let (mut rej576, mut run, mut maxrun) = (0usize, 0usize, 0usize);
+            for k in 0..612 {
+                let t = ((buf[2 * k] as u32) << 8) | buf[2 * k + 1] as u32;
+                if t >= 61445 {
+                    run += 1;
+                    maxrun = maxrun.max(run);
+                    if k < 576 {
+                        rej576 += 1;
+                    }
+                } else {
+                    run = 0;
+                }
+            }
+            if rej576 >= 58 || maxrun >= 6 {
+                // score: rejection-heavy prefixes and long runs both rank high
+                local.push((rej576 + 1000 * maxrun, s));
             }
         }
         best.lock().unwrap().extend(local);
     });
     let mut v = best.into_inner().unwrap();
+    // half of the kept inputs by longest run, half by number of early rejections
     v.sort_by(|a, b| b.0.cmp(&a.0));
-    v.truncate(keep);
-    v
+    let mut out: Vec<(usize, Vec<u8>)> = v.iter().take(keep / 2).cloned().collect();
+    let mut rest: Vec<(usize, Vec<u8>)> = v.into_iter().skip(keep / 2).collect();
+    rest.sort_by(|a, b| (b.0 % 1000).cmp(&(a.0 % 1000)));
+    out.extend(rest.into_iter().take(keep - keep / 2));
+    out
 }
 
 pub fn extremes(ctx: &Ctx, rep: &mut Report) {
-    let cands = ctx.sz(6_000_000, 120_000_000);
-    let xs = extreme_inputs(ctx.seed, cands, ctx.sz(3000, 60000));
+    let cands = ctx.sz(12_000_000, 600_000_000);
+    let xs = extreme_inputs(ctx.seed, cands, ctx.sz(4000, 80000));
     rep.count("candidates_scanned_with_the_reference", cands as u64);
     let mut maxc = 0;
-    for (chunks, s) in &xs {
+    for (score, s) in &xs {
         check(s, rep);
-        maxc = maxc.max(*chunks);
+        maxc = maxc.max(*score);
         rep.nontrivial(s);
         rep.count("extreme_inputs_checked", 1);
-        if *chunks > 512 + 64 {
+        // characterise what was reached (reference trace)
+        let (_, tr) = spec::hash_to_point_traced(s, 1024);
+        if tr.chunks > 1024 + 128 {
+            rep.count("inputs_with_more_than_n_over_8_rejections_1024", 1);
+        }
+        let (_, tr5) = spec::hash_to_point_traced(s, 512);
+        if tr5.chunks > 512 + 64 {
             rep.count("inputs_with_more_than_n_over_8_rejections_512", 1);
         }
+        if *score / 1000 >= 7 {
+            rep.count("inputs_with_a_run_of_7_or_more_rejected_chunks", 1);
+        }
+        if *score / 1000 >= 8 {
+            rep.count("inputs_with_a_run_of_8_or_more_rejected_chunks", 1);
+        }
     }
-    rep.stat_set("max_chunks_consumed_for_512_coefficients", maxc as f64);
+    rep.stat_set("max_extremeness_score", maxc as f64);
     if let Some((c, s)) = xs.first() {
-        rep.sample(json!({"input": hex(s), "chunks_consumed_for_512_coefficients": c, "typical": 546}));
+        rep.sample(json!({"input": hex(s), "score": c, "meaning": "1000 * (longest run of consecutive rejected chunks) + rejections among the first 576 chunks"}));
     }
     rep.require("extreme_inputs_checked", 100);
 }
